@@ -347,6 +347,15 @@ def _gen_call(rng, iface, m=None):
   return call
 
 
+def _wire_key(iface, call):
+  """(method, set arguments by name): equal keys = equal request payloads"""
+  names = [n for (n, _t) in METHODS[iface][call['m']]['args']]
+  vals = dict(zip(names, call['pos']))
+  for x in call['kw']:
+    vals[x['k']] = x['v']
+  return common.canon([call['m'], sorted((k, v) for k, v in vals.items() if v.get('t') != 'none')])
+
+
 def cases(prop, tier, seed):
   global TRACE_CHUNK
   TRACE_CHUNK = 250 if tier == 'quick' else 1500
@@ -392,6 +401,11 @@ def cases(prop, tier, seed):
         c['proto'] = 'accel'
         if rng.random() < 0.85:
           c['cut'] = -1
+        # two outstanding calls that are identical on the wire cannot be told apart by the peer (nor by the
+        # harness): they get the same server behaviour, so it does not matter which is which
+        for prev in calls:
+          if _wire_key(iface, prev) == _wire_key(iface, c):
+            c['srv'], c['cut'] = prev['srv'], prev['cut']
         calls.append(c)
       order = list(range(k))
       rng.shuffle(order)
